@@ -28,6 +28,14 @@ def units_touching(prop, files):
         if prop not in u['properties']:
             continue
         anchored = {os.path.normpath(sp['file']) for sp in u.get('splices', [])}
+        if u['tool'] == 'kani':
+            # a harness spliced into one file exercises code of its whole crate and of the crates below it
+            crates = {f.split('/')[0] for f in files}
+            below = {'qbase': {'qbase'}, 'qrecovery': {'qbase', 'qrecovery'}, 'qcongestion': {'qbase', 'qcongestion'},
+                     'qdatagram': {'qbase', 'qdatagram'}, 'qconnection': {'qbase', 'qrecovery', 'qcongestion', 'qdatagram', 'qinterface', 'qconnection'}}
+            if crates & below.get(u['crate'], {u['crate']}):
+                hit.append(u['unit'])
+            continue
         if u['tool'] == 'verus':
             t = open(os.path.join(u['dir'], u['template'])).read()
             inc = re.findall(r'//@include\s+(\S+)', t)
